@@ -337,6 +337,7 @@ def build_cases(ctx, rng):
 
 
 def run(ctx):
+    ctx.liveness("Decoys", unfair_control=not ctx.quick)      # termination under weak fairness (Decoys_live.cfg)
     logging.disable(logging.CRITICAL)          # "No sequence was detected" warnings for empty records
     rng = np.random.default_rng(ctx.seed)
     global _WORK
